@@ -82,7 +82,7 @@ package controller
 //@   requires ctlwf(c) && evt != nil
 //@   requires @trace-marks-in-the-past hostaddat <= procseq && hostrmat <= procseq
 //@   requires @events-carry-complete-endpoints (typeis(evt, "*config.SvcAddEvent") ==> ifaceptr(evt, "*config.SvcAddEvent") != nil && epsok(ifaceptr(evt, "*config.SvcAddEvent").Endpoints)) && (typeis(evt, "*config.SvcEndpointEvent") ==> ifaceptr(evt, "*config.SvcEndpointEvent") != nil && epsok(ifaceptr(evt, "*config.SvcEndpointEvent").Added) && epsok(ifaceptr(evt, "*config.SvcEndpointEvent").Removed)) && (typeis(evt, "*config.SvcRemoveEvent") ==> ifaceptr(evt, "*config.SvcRemoveEvent") != nil) && (typeis(evt, "*config.SvcConfigEvent") ==> ifaceptr(evt, "*config.SvcConfigEvent") != nil)
-//@   modifies mapof(c.procs), procseq, hostaddat, hostrmat, cfgupdat, stopat, lastop, atombool
+//@   modifies mapof(c.procs), procseq, hostaddat, hostrmat, cfgupdat, stopat, lastop, atombool, ensuren, ensurename, ensurecfg, ensurehosts
 //@   ensures @well-formed ctlwf(c)
 //@   ensures @trace-marks-stay-in-the-past hostaddat <= procseq && hostrmat <= procseq
 //@   ensures @endpoint-deltas-applied-as-computed-removals-first typeis(evt, "*config.SvcEndpointEvent") && hostaddat > old(procseq) && hostrmat > old(procseq) ==> hostrmat < hostaddat
